@@ -185,6 +185,41 @@ def case_hostname(tools, hostlen):
     return {'family': 'hostname', 'length': len(full), 'status': r.returncode, 'problems': probs, 'stderr': r.stderr.decode('latin-1')[-160:]}
 
 
+def case_long_name(tools, n, sub):
+    """A message whose FILE NAME has n bytes (NAME_MAX - 1, NAME_MAX; one more cannot exist on this platform, which is why the size test
+    of message_parse on me_name - a buffer of NAME_MAX + 1 - cannot fire here): it is parsed, matched and moved like any other."""
+    box = tools.box()
+    for d in ('src/new', 'src/cur', 'dst/new', 'dst/cur', 'tmp', 'home'):
+        os.makedirs(os.path.join(box, d))
+    suffix = ':2,FS' if sub == 'cur' else ''
+    name = 'n' * (n - len(suffix)) + suffix
+    probs = []
+    try:
+        with open(os.path.join(box, 'src', sub, name), 'wb') as fh:
+            fh.write(MSG)
+    except OSError as e:
+        shutil_rm(box)
+        if n <= NAME_MAX:
+            probs.append('cannot create a name of %d bytes: %s' % (n, e))
+        return {'family': 'long-name', 'length': n, 'status': 'not-creatable', 'problems': probs, 'stderr': str(e)[-100:]}
+    with open(os.path.join(box, 'conf'), 'w') as fh:
+        fh.write('maildir "%s/src" {\n\tmatch header "Subject" /./ flags "T" move "%s/dst"\n}\n' % (box, box))
+    env = {'PATH': os.environ.get('PATH', ''), 'HOME': box + '/home', 'TMPDIR': box + '/tmp', 'LD_PRELOAD': tools.shim, 'LC_ALL': 'C'}
+    env.update(proc.PIN)
+    r = subprocess.run([tools.mdsort, '-f', os.path.join(box, 'conf')], capture_output=True, env=env, cwd=box)
+    after = listing(box)
+    got = [p for p in after if p.startswith('./dst/')]
+    want = '1790000000.4242_8.host:2,' + ('FST' if sub == 'cur' else 'T')
+    if r.returncode != 0:
+        probs.append('exit status %d for a message whose name has %d bytes' % (r.returncode, n))
+    if [p[2:] for p in got] != ['dst/%s/%s' % (sub, want)]:
+        probs.append('expected exactly dst/%s/%s, found %s' % (sub, want, [p[-60:] for p in got]))
+    if any(p.startswith('./src/') and p.endswith(name[-20:]) for p in after):
+        probs.append('the message is still in src')
+    shutil_rm(box)
+    return {'family': 'long-name', 'length': n, 'status': r.returncode, 'problems': probs, 'stderr': r.stderr.decode('latin-1')[-160:]}
+
+
 def case_tmpdir(tools, total):
     box = tools.box()
     for d in ('dst/new', 'dst/cur', 'home'):
@@ -846,7 +881,10 @@ def run(rep):
     for n in range(PATH_MAX - 2, PATH_MAX + 3):
         jobs.append(('envcopy', 'HOME', n))
         jobs.append(('envcopy', 'TMPDIR', n))
-    NEW = {'root': case_maildir_root, 'msg': case_message_path, 'isdir': case_isdirectory, 'destdecoy': case_destination_decoy,
+    for n in (NAME_MAX - 1, NAME_MAX, NAME_MAX + 1):
+        for sub in ('new', 'cur'):
+            jobs.append(('longname', n, sub))
+    NEW = {'longname': case_long_name, 'root': case_maildir_root, 'msg': case_message_path, 'isdir': case_isdirectory, 'destdecoy': case_destination_decoy,
            'defconf': case_default_conf}
 
     def do(j):
